@@ -1,16 +1,26 @@
 PROP = dict(
     module="M3d.Props.C11",
     corr=dict(quick=300, thorough=1000),
-    gen=[],
+    gen=["HierAxis", "Kernels"],
+    tie_modules=["M3d.Lemmas.KernelsTieHier"],
     corr_theorems=(
         "M3d.C11.needs_repair_iff / needs_repair_iff_two_faces / inconsistent_edges_eq / edge_balanced_iff_clean (diag3, diagd3), "
         "singular_vertices_eq / singular_search_exact / fan_adjacency_is_shared_edge_at_vertex / singular_iff_clusters / fan_connected_no_singular_vertices / closed_manifold_diagnostics_clean (diag3 sv), clusters_partition (clus3), "
         "orientations_consistent / orientation_groups_are_components / orientations_consistent_whole_mesh / orientation_search_exact (rnm3 groups, diag3 or=), "
         "majority_minimal_flips / repair_normals_majority_consistent / repair_normals_majority_clean (rnm3), repair_normals_restores (rn3), repair_normals2_restores (rn2), "
         "repair_merges_classes (rep3, rep2), components_partition / hierarchy_partition / hierarchy_nodes_are_components / hierarchy_probe_independent / "
+        "hierarchy2_partition (hier2 full=: on closed oriented curves the 2-D loop tracer never panics and FullMesh is a permutation of the segments, every oracle) / "
         "hierarchy_nesting / hierarchy_contains_eq_evenodd / hierarchy_sweep_order_from_key / hierarchy_nesting_of_sweep_key (hier3, hier2: parent = deepest exact encloser, ancestors = all enclosers, Contains = exact even-odd of the whole mesh; "
         "the order hypothesis is derived from the sweep key), hierarchy_root_prefilter_sound / bbox_far_corner_prefilter_sound / bbox_max_corner_prefilter_sound_of_nonneg / bbox_max_corner_is_not_the_far_corner "
-        "(a shortcut in front of the root-level containment test must never reject an encloser: sound with the far bounding-box corner, with Max() only for an axis without negative component - so the expected hier3 answer is the unpruned one), manifold2_iff / inconsistent_vertices2_eq / in_out_one_iff_clean2 (diag2). "
+        "(a shortcut in front of the root-level containment test must never reject an encloser: sound with the far bounding-box corner, with Max() only for an axis without negative component - so the expected hier3 answer is the unpruned one; "
+        "hierarchy_axis_signs / max_corner_shortcut_sound_for_the_2d_axis / max_corner_is_not_the_far_corner_for_the_3d_axis instantiate this for the axes of the CURRENT source, Gen/HierAxis.lean is regenerated from var arbitraryAxis "
+        "of both mesh_hierarchy.go files, and the driver sweeps with these values), manifold2_iff / inconsistent_vertices2_eq / in_out_one_iff_clean2 (diag2); "
+        "hist3 / hist2 and the call order of diag3 / diagd3 (section O): mesh_index_coherent_on_every_history (the lazily built vertex index, maintained by Add / swap-with-last Remove, describes the current face set after every history), "
+        "needs_repair_after_any_history / needs_repair_same_faces_same_answer (NeedsRepair is a function of the face set: same answer with or without a cached index), singular_vertices_after_any_history / "
+        "singular_vertices_same_faces_same_answer / singular_vertices_fresh_mesh (the stack search on the history-ordered slices reports the vertices whose fan graph is disconnected), manifold2_after_any_history (2-D Manifold on the slices), "
+        "needs_repair_fan_below_two_prefilter_sound / needs_repair_fan_below_three_prefilter_unsound (a shortcut that looks at the cached index is harmless iff it only fires on meshes that need repair: 'a vertex with < 2 triangles' is, "
+        "'< 3 triangles' is not - the double cover of a triangle has every edge used twice), gate= is the NeedsRepair / Manifold gate of MeshToHierarchy; "
+        "no_singular_vertices_fan_connected / closed_manifold_iff_diagnostics_clean (the driver's cross-check fanConnected = (sv = {}) on edge-balanced cases is now a theorem: the three 3-D diagnostics are clean iff the mesh is a Surface.ClosedManifold). "
         "The driver prints what the DEFINITIONS give (edge multiplicities, naive closures, exact rational even-odd ray casting, Surface's proved "
         "deciders) and flags any disagreement between a faithful model and its definition (MODELDIFF), so a difference with the real output is a failing input."
     ),
@@ -30,6 +40,13 @@ PROP = dict(
         "scaled by 2^-1..2^-3, the long axis cycling x,y,z), slab 1/8, independent scales 1/8 - with the query points mapped along, so that inner components start anywhere relative to the corners of their "
         "enclosers' bounding boxes along the sweep axis (counted: hier3:bbox-nested-pairs-inner-starts-beyond-max-corner-of-outer, ...-beyond-second-furthest-corner..., hier3-xform:*); fixed: the 12 demo nests as "
         "needles along x/y/z under 12 signed permutations and 24 corner needles (a needle along each axis with two voids in opposite corners of its bounding box, all 8 corner pairs); 2-D: nested polygons, circles, figure-eights, polylines with reversed/duplicated/removed/degenerate segments; "
+        "HISTORIES (hist3, hist2): one mesh object, initial soup = closed manifold (1/2) / empty / damaged as above, in half of the cases plus 1-2 DOUBLE-COVERED TRIANGLES (two faces on the same three vertices, opposite or equal "
+        "orientation, 0-2 corners shared with the rest), then 0-8 steps: Remove a face, Add a removed pointer again, undo the last change, Add a reversed / equal copy of a face, a fin, a random triangle, a double cover in two halves with a call in "
+        "between, empty the mesh face by face and refill it in another order, no-op Add/Remove, m = m.Copy(), calls that build the vertex index (SingularVertices, Find, Neighbors, VertexSlice, Repair, Orientable) or do not "
+        "(NeedsRepair, InconsistentEdges, Iterate), and observations nr / sv / ie / or / gate (MeshToHierarchy refuses the mesh) in random order after 35% of the steps and at the end; the op line carries the steps and whether the index "
+        "existed after each call (hook VerifMeshHasIndex); counted: hist3:nr-observed-with-index-cached(-on-closed-mesh-with-a-2-fan-vertex), ...-without-index; 2-D: segments split, digons and triangles added, Manifold / "
+        "InconsistentVertices / the MeshToHierarchy gate observed; fixed histories: the double cover alone before/after each index-building call, next to and touching a tetrahedron, grown face by face on an index built for the "
+        "empty mesh, a tetrahedron emptied and refilled, opened and closed with the index cached; diag3 / diagd3 call the four diagnostics in the declaration order (1/2) or a random order (recorded in section O), the fixed inputs in both; "
         "plus a fixed list of edge cases; distinct = distinct operation lines"
     ),
     trusted=[
@@ -40,8 +57,10 @@ PROP = dict(
         "the sweep-order hypothesis of hierarchy_nesting (a component is swept after every component enclosing it) is derived (hierarchy_sweep_order_from_key) from: vertices "
         "visited by non-decreasing key, and an encloser has a vertex with a smaller key than every vertex of the enclosed component; that last, geometric, fact (enclosed => strictly inside the "
         "convex hull of the encloser's vertices; hull_point_not_before_all is its linear half) is an assumption, checked by the driver on every hier3 case (MODELDIFF:sweep-key)",
-        "partial: Surface.FanConnected => no singular vertex is proved, the converse is only cross-checked by the "
-        "driver on every edge-balanced case; 2-D hierarchy tracing (traceLoop) modelled and checked by correspondence, partition theorem proved for 3-D only",
+        "2-D hierarchy: hierarchy2_partition is proved for closed oriented curves (Surface.InOutOne) and every oracle; nesting / Contains of the 2-D forest follow the generic forest theorems (hierarchy_nesting, hierarchy_contains_eq_evenodd are stated on the 3-D loop) and are checked by correspondence (hier2)",
+        "histories: the stateful model (M3d/Model/MeshDiagHist.lean) covers Add / Remove / Copy / index-building calls and NeedsRepair / InconsistentEdges / SingularVertices / 2-D Manifold on the state; Orientable / RepairNormalsMajority and "
+        "2-D InconsistentVertices on a state are compared with their definitions on the current face list (their order abstraction - Neighbors answers like a fresh list - is C09's theorem); CoordToSlice as an association list (C09 proves the real map behaves like one)",
+        "Gen/HierAxis.lean: the literals of var arbitraryAxis read with go/ast (plain decimal literals only; anything else breaks the generator and is reported); the sign theorems are about the exact decimal values, the float64 values are their roundings (same signs)",
     ],
     assumptions=[
         "no NaN coordinates; SingularVertices / Orientable / RepairNormalsMajority are compared on meshes without degenerate triangles "
@@ -56,16 +75,18 @@ PROP = dict(
         "panic, its groups are exactly the Neighbors-components, its flags orient the whole mesh; the majority vote flips min(k,n-k) faces per group and the output of "
         "RepairNormalsMajority is EdgeBalanced whenever NeedsRepair is false and the mesh is orientable; "
         "RepairNormals restores exactly what the even-odd oracle reports; Repair merges exactly the equivalence closure of 'share a grid hash' and maps to a "
-        "representative inside the class; the hierarchy's FullMesh is a permutation of the input for every oracle, its nodes are the vertex-connected components; "
+        "representative inside the class; the hierarchy's FullMesh is a permutation of the input for every oracle (3-D; 2-D on closed oriented curves, where the loop tracer never panics), its nodes are the vertex-connected components; "
         "the hierarchy depends only on how the probes classify whole components (hierarchy_probe_independent); with a laminar, sweep-compatible containment oracle, "
         "ancestor <-> encloses and Contains = parity of containing components; the sweep compatibility follows from sorting by a key under which every encloser starts first; "
         "a cheap test in front of the root-level containment call is harmless iff it never rejects an encloser - true for the bounding-box corner furthest along the axis, for Max() only "
         "when the axis has no negative component (2-D yes, 3-D no); 2-D Manifold/InconsistentVertices "
-        "<-> Surface.InOutOne; 2-D RepairNormals restores what its oracle reports. Tie: the real diagnostics, repairs and hierarchies on damaged meshes are diffed against the definitions evaluated in Lean "
+        "<-> Surface.InOutOne; 2-D RepairNormals restores what its oracle reports; the three 3-D diagnostics are all clean iff the mesh is a closed oriented manifold (every link one cycle - both directions proved); "
+        "on a mesh with a history (Add, Remove, Copy, lazily built and incrementally maintained vertex index) the index describes the current face set after every history, NeedsRepair / SingularVertices / 2-D Manifold answer as their definitions on the "
+        "current faces whatever the history and whether or not the index is cached, and a shortcut in NeedsRepair that reads the cached index is sound for 'some vertex has < 2 triangles' but not for '< 3' (double-covered triangle). Tie: the real diagnostics, repairs and hierarchies on damaged meshes are diffed against the definitions evaluated in Lean "
         "(exact rational even-odd), with the faithful models run alongside."
     ),
     level_note=(
-        "Proved about the models in lean/M3d/Model/MeshDiag.lean and MeshDiagSweep.lean; models tied to /repo by correspondence (11 kinds, 3-D and 2-D). Trusted: Lean kernel, "
+        "Proved about the models in lean/M3d/Model/MeshDiag.lean, MeshDiagSweep.lean and MeshDiagHist.lean; models tied to /repo by correspondence (13 kinds, 3-D and 2-D), the regenerated sweep axes (Gen/HierAxis.lean) and the regenerated Dot (KernelsTieHier). Trusted: Lean kernel, "
         "propext/Classical.choice/Quot.sound, Go harness + Lean driver, the abstractions listed under trusted. One defect found and fixed (5660fd7: "
         "SingularVertices never joined coincident triangles)."
     ),
